@@ -285,3 +285,35 @@ brk("c01-envelope-member-unwrapped", ["C01", "C02"], (ENV, "            suit_tex
 brk("c01-digest-stored-pos0", ["C01"], (ENV, "        self.value.value.value[suit_authentication_wrapper].SuitAuthentication[0].SuitDigest.SuitDigestRaw[\n            1\n        ].SuitDigestBytes = self.get_manifest_digest(alg)", "        self.value.value.value[suit_authentication_wrapper].SuitAuthentication[0].SuitDigest.SuitDigestRaw[\n            1\n        ].SuitDigestBytes = self.get_manifest_digest(\"cose-alg-sha-256\")"))
 ben("c01-helper-extracted", ["C01"], (IO, "        suit_obj = SuitEnvelopeTagged.from_obj(data)\n        suit_obj.update_severable_digests()\n        suit_obj.update_digest()\n        return suit_obj.to_cbor()", "        suit_obj = SuitEnvelopeTagged.from_obj(data)\n        suit_obj.update_severable_digests()\n        suit_obj.update_digest()\n        result = suit_obj.to_cbor()\n        return result"))
 ben("c01-list-reordered", ["C01"], (ENV, "            suit_text,\n            suit_dependency_resolution,\n            suit_payload_fetch,", "            suit_payload_fetch,\n            suit_dependency_resolution,\n            suit_text,"))
+
+# ------------------------------------------------------------------ C05 file provenance
+brk("c05-digest-text-mode", ["C05"], (SEC, '                with open(digest_dict["file"], "rb") as fd:\n                    obj[suit_digest_bytes.name] = hfunc.hash(fd.read())', '                with open(digest_dict["file"], "r") as fd:\n                    obj[suit_digest_bytes.name] = hfunc.hash(fd.read().encode())'))
+brk("c05-digest-read-limit", ["C05"], (SEC, "obj[suit_digest_bytes.name] = hfunc.hash(fd.read())", "obj[suit_digest_bytes.name] = hfunc.hash(fd.read(1 << 24))"))
+brk("c05-digest-fixed-alg", ["C05"], (SEC, "hfunc = SuitHash(obj[suit_digest_algorithm_id.name])", 'hfunc = SuitHash("cose-alg-sha-256")'))
+brk("c05-envelope-digest-child-alg", ["C05"], (SEC, "obj[suit_digest_bytes.name] = sub_envelope.get_manifest_digest(obj[suit_digest_algorithm_id.name]).hex()", 'obj[suit_digest_bytes.name] = sub_envelope.get_digest().value.SuitDigestRaw[1].value.hex()'))
+brk("c05-file-direct-strip", ["C05"], (SEC, "obj[suit_digest_bytes.name] = fd.read().hex()", "obj[suit_digest_bytes.name] = fd.read().strip().hex()"))
+brk("c05-size-of-other-key", ["C05"], (M, 'return super().from_obj(getsize(obj["file"]))', 'return super().from_obj(getsize(obj.get("file_direct", obj["file"])))'))
+brk("c05-size-envelope-minus", ["C05"], (M, "return super().from_obj(len(binary_data))", "return super().from_obj(len(binary_data) & 0xFFFFFF)"))
+brk("c05-payload-file-text", ["C05"], (PAY, '                with open(v, "rb") as fh:\n                    data = fh.read().hex().upper()', '                with open(v, "r") as fh:\n                    data = fh.read().encode().hex().upper()'))
+brk("c05-payload-file-rstrip", ["C05"], (PAY, "data = fh.read().hex().upper()", "data = fh.read().rstrip(b\"\\n\").hex().upper()"))
+brk("c05-subenvelope-path-not-refreshed-but-reencoded", ["C05"], (ENV, '            with open(obj, "rb") as fh:\n                return fh.read()', '            with open(obj, "rb") as fh:\n                return cls.from_cbor(fh.read()).to_cbor()'))
+brk("c05-inline-no-refresh", ["C05", "C01"], (ENV, "            suit_obj = cls.from_obj(obj)\n            suit_obj.update_severable_digests()\n            suit_obj.update_digest()", "            suit_obj = cls.from_obj(obj)\n            suit_obj.update_digest()"))
+brk("c05-raw-upper-slice", ["C05"], (SEC, 'obj[suit_digest_bytes.name] = digest_dict["raw"]', 'obj[suit_digest_bytes.name] = digest_dict["raw"][:64]'))
+ben("c05-read-bytes-idiom", ["C05"], (SEC, '                with open(digest_dict["file_direct"], "rb") as fd:\n                    obj[suit_digest_bytes.name] = fd.read().hex()', '                fd = open(digest_dict["file_direct"], "rb")\n                obj[suit_digest_bytes.name] = fd.read().hex()'))
+
+# ------------------------------------------------------------------ C15 keys / convert
+brk("c15-unfix-width", ["C15"], (CONV, "            x_byte_length = (public_key_numbers.curve.key_size + 7) // 8", "            x_byte_length = (public_key_numbers.x.bit_length() + 7) // 8"))
+brk("c15-width-floor", ["C15"], (CONV, "            x_byte_length = (public_key_numbers.curve.key_size + 7) // 8\n            y_byte_length = (public_key_numbers.curve.key_size + 7) // 8", "            x_byte_length = public_key_numbers.curve.key_size // 8\n            y_byte_length = public_key_numbers.curve.key_size // 8"))
+brk("c15-y-then-x", ["C15"], (CONV, "            public_key_bytes = x_bytes + y_bytes", "            public_key_bytes = y_bytes + x_bytes"))
+brk("c15-little-endian", ["C15"], (CONV, 'y_bytes = public_key_numbers.y.to_bytes(length=y_byte_length, byteorder="big")', 'y_bytes = public_key_numbers.y.to_bytes(length=y_byte_length, byteorder="little")'))
+brk("c15-columns-affect-data", ["C15"], (CONV, "        return public_key_bytes\n", "        return public_key_bytes[: len(public_key_bytes) // self._columns_count * self._columns_count] if self._columns_count > 16 else public_key_bytes\n"))
+brk("c15-row-split-overlap", ["C15"], (CONV, "return [data[i : i + self._columns_count] for i in range(0, len(data), self._columns_count)]", "return [data[i : i + self._columns_count] for i in range(0, len(data) - 1, self._columns_count)]"))
+brk("c15-trailing-strip-3", ["C15"], (CONV, "        text = text[:-2]\n", "        text = text[:-3]\n"))
+brk("c15-length-other-name", ["C15"], (CONV, 'right_hand_side += f"sizeof({self._array_name});"', 'right_hand_side += f"sizeof({KeyConverter.default_array_name});"'))
+brk("c15-unfix-instance", ["C15"], (KEYS, "return ec.generate_private_key(KeyGenerator.supported_key_types[type]())", "return ec.generate_private_key(KeyGenerator.supported_key_types[type])"))
+brk("c15-curve-table-swapped", ["C15"], (KEYS, '"secp384r1": ec.SECP384R1,', '"secp384r1": ec.SECP256R1,'))
+brk("c15-public-of-new-key", ["C15"], (KEYS, "        public_key = private_key.public_key()\n", "        public_key = self.generate_private_key(key_type).public_key()\n"))
+brk("c15-valueerror-not-converted", ["C15"], (KEYS, '        except ValueError as error:\n            raise GeneratorError(f"Invalid key generator parameters combination: {error}") from error\n', ''))
+brk("c15-pub-priv-names-swapped", ["C15"], (KEYS, '        self._write(private, f"{file_name_prefix}_priv.{encoding}")\n        self._write(public, f"{file_name_prefix}_pub.{encoding}")', '        self._write(public, f"{file_name_prefix}_priv.{encoding}")\n        self._write(private, f"{file_name_prefix}_pub.{encoding}")'))
+brk("c15-main-swap", ["C15"], (CONV, "        array_type,\n        array_name,\n        length_type,\n        length_name,\n        columns_count,\n        header_file,", "        array_type,\n        length_name,\n        length_type,\n        array_name,\n        columns_count,\n        header_file,"))
+ben("c15-width-ceil", ["C15"], (CONV, "            x_byte_length = (public_key_numbers.curve.key_size + 7) // 8\n            y_byte_length = (public_key_numbers.curve.key_size + 7) // 8", "            x_byte_length = -(-public_key_numbers.curve.key_size // 8)\n            y_byte_length = x_byte_length"))
